@@ -13,6 +13,9 @@ from props.c02 import frame, payload_for, KNOWN, H2, OTHER, varint
 REQ_HEADERS = "010d0000d1d750831af1ff518263cf"          # GET https://a.b/x
 RESP_HEADERS = "01030000d9"                               # 200
 SETTINGS = "000400"
+TRAILERS = "0108000023782d740176"                        # HEADERS frame: trailer section  x-t: v
+GET_URI = "68747470733a2f2f612e622f78"
+SEND_CMDS = ("sr", "sd", "st", "fi")
 
 
 def _inventory_files():
@@ -24,16 +27,36 @@ def _inventory_files():
         sys.path.pop(0)
 
 
-def ended_streams(ops):
-    """stream ids the peer finished/reset, and whether the connection was closed, by the script"""
-    ended, closed = set(), False
-    for op in ops:
-        m = re.match(r"^[fr](\d+)", op)
+def stream_events(role, cfg, ops):
+    """What the peer's script has ended.  A stream op counts only if the stream EXISTS when it is applied (SimQuic
+    ignores it otherwise): server - the peer opened it before (`o<sid>`); client - a unidirectional stream the peer
+    opened before, or a request stream whose request was sent before (the (sid/4+1)-th `snd.R`; not decidable from
+    the line when bidirectional stream credit is limited, `bc=`: then no op on a request stream is counted).
+    Returns (ended: receive sides finished / reset by `f<sid>` / `r<sid>`, stopped: {sid: op index} send sides ended
+    by STOP_SENDING `x<sid>`, closed: the connection was closed / timed out)."""
+    ended, stopped, closed = set(), {}, False
+    opened, nreq = set(), 0
+    limited = any(t.startswith("bc=") for t in cfg.split(","))
+    for i, op in enumerate(ops):
+        m = re.match(r"^o(\d+)$", op)
         if m:
-            ended.add(int(m.group(1)))
+            opened.add(int(m.group(1)))
+        if op.startswith("snd.R"):
+            nreq += 1
+        m = re.match(r"^([frx])(\d+)", op)
+        if m:
+            sid = int(m.group(2))
+            if role == "server" or sid % 4 != 0:
+                exists = sid in opened
+            else:
+                exists = not limited and sid // 4 < nreq
+            if exists and m.group(1) == "x":
+                stopped.setdefault(sid, i)
+            elif exists:
+                ended.add(sid)
         if re.match(r"^C\d+$", op) or op == "T":
             closed = True
-    return ended, closed
+    return ended, stopped, closed
 
 
 def fired_faults(impl):
@@ -80,11 +103,17 @@ class C06(Prop):
     # ---- projection: the only observables are `panic` and calls left pending on something that has ended
     def project(self, line, impl):
         ops = line.split()[3:]
+        if line.startswith("wt "):
+            # WebTransport stream I/O (engine wt): C19's observables, which the Lean driver predicts in full -
+            # a panic or a call left waiting where the model says it returns is then a difference
+            from props import c19
+            return c19.PROP.project(line, impl)
         if impl == "panic" or impl == "abort":
             return "panic=1 hang=[]"
         if impl.startswith("bad-op"):
             return impl
-        ended, closed = ended_streams(ops)
+        role, cfg = line.split()[1], line.split()[2]
+        ended, stopped, closed = stream_events(role, cfg, ops)
         e2, c2 = fired_faults(impl)
         ended, closed = ended | e2, closed or c2
         m = re.search(r"pending=\[([^\]]*)\]", impl)
@@ -120,6 +149,17 @@ class C06(Prop):
             mm = re.match(r"^[qw](\d+)s?$", task)
             if mm and int(mm.group(1)) in ended and cmd in ("res", "rr", "rd", "rb", "rm", "rt"):
                 hang.append(p)
+            # the send side: the peer's STOP_SENDING ends send_response / send_data / send_trailers / finish of
+            # that stream (they wait for write credit the peer will never grant now)
+            if mm and int(mm.group(1)) in stopped and cmd in SEND_CMDS:
+                hang.append(p)
+            # client send_request waiting for write credit on the stream it has opened (the newest one)
+            if p == "snd.R" and role == "client":
+                mine = [int(x) for x in re.findall(r"(?:^| )(\d+):tx=", impl.split(" | ", 1)[-1]) if int(x) % 4 == 0]
+                done = len(re.findall(r"(?:^| )snd\.R=", impl.split(" | ", 1)[0]))
+                calls = [i for i, op in enumerate(ops) if op.startswith("snd.R")]
+                if mine and max(mine) in stopped and len(calls) > done and stopped[max(mine)] > calls[done]:
+                    hang.append(p)
         return "panic=0 hang=[%s]" % ",".join(sorted(hang))
 
     def project_all(self, lines, impls):
@@ -128,6 +168,11 @@ class C06(Prop):
         idx = [i for i, l in enumerate(lines) if l.startswith("flt")]
         for i, p in zip(idx, faults.project_all([lines[i] for i in idx], [impls[i] for i in idx])):
             res[i] = p
+        idx = [i for i, l in enumerate(lines) if l.startswith("wt ")]
+        if idx:
+            from props import c19
+            for i, p in zip(idx, c19.PROP.project_all([lines[i] for i in idx], [impls[i] for i in idx])):
+                res[i] = p
         for i, l in enumerate(lines):
             if res[i] is None:
                 res[i] = self.project(l, impls[i])
@@ -175,11 +220,43 @@ class C06(Prop):
                             "q%d.sr:200" % sid, "q%d.sd:aabb" % sid, "q%d.fi" % sid]
                     sid += 4
                 out.append(ops)
+            out += self.trailer_scenarios(rng, role)
         else:
             for _ in range(6):
                 ops = ["drv.W", "o3", "s3:" + SETTINGS, "snd.R:GET:68747470733a2f2f612e622f78:-", "q0.fi",
                        "s0:" + RESP_HEADERS + hx(frame(0x0, [1, 2, 3], rng)), "q0.rr", "q0.rm", "f0"]
                 out.append(ops)
+            out += self.trailer_scenarios(rng, role)
+        return out
+
+    def trailer_scenarios(self, rng, role):
+        """messages that END WITH VALID TRAILERS (recv_trailers answers Some): body of 0-2 DATA frames, reserved
+        (grease) frames between the frames and behind the trailers, delivered whole / cut at the frame boundaries /
+        in small chunks, the receive pattern called before, in the middle of, or after the delivery"""
+        out = []
+        for k in range(4):
+            grease = lambda: rng.choice(["", "", "2100", "402100", "2103aabbcc", "21004021020102"])
+            body = "".join(hx(frame(0x0, [rng.randrange(256) for _ in range(rng.randrange(0, 5))], rng)) + grease()
+                           for _ in range(rng.randrange(0, 3)))
+            head = REQ_HEADERS if role == "server" else RESP_HEADERS
+            parts = [head + grease(), body, TRAILERS, grease()]
+            if k == 0:
+                chunks = ["s0:" + "".join(parts)]
+            elif k == 1:
+                chunks = ["s0:" + x for x in parts if x]
+            else:
+                chunks = self.chunked(0, "".join(parts), rng) if k == 2 else \
+                    ["s0:%02x" % b for b in bytes.fromhex("".join(parts))]
+            first = "q0.res" if role == "server" else "q0.rr"
+            pre = ["conn.AL", "o2", "s2:" + SETTINGS, "o0"] if role == "server" else \
+                ["drv.W", "o3", "s3:" + SETTINGS, "snd.R:GET:%s:-" % GET_URI, "q0.fi"]
+            cut = rng.randrange(0, len(chunks) + 1)
+            if role == "server" and cut == 0:
+                cut = 1          # the request task exists once the first bytes are there
+            ops = pre + chunks[:cut] + [first, "q0.rm"] + chunks[cut:] + ["f0"]
+            if role == "server":
+                ops += ["q0.sr:200", "q0.st:782d74=76", "q0.fi"]
+            out.append(ops)
         return out
 
     def garbage(self, rng, n=None):
@@ -320,15 +397,115 @@ class C06(Prop):
                     L.append(self.with_faults(role, cfg, rng_ops, ctl, uni, bidi, rng))
         # the transport fails at every step index of the base scenarios
         for role in ("server", "client"):
-            for base in self.base_scenarios(rng, role)[:3 if big else 2]:
+            bases = self.base_scenarios(rng, role)
+            for base in bases[:3 if big else 2] + bases[6:9 if big else 8]:      # plain ones + ones with trailers
                 ctl = 2 if role == "server" else 3
                 sids = sorted({int(m.group(1)) for op in base for m in [re.match(r"^[os](\d+)", op)] if m})
                 for i in range(len(base) + 1):
                     for f in self.fault_menu(role, sids, rng, 6 if big else 3):
                         L.append("adv %s g1 %s" % (role, " ".join(base[:i] + [f] + base[i:])))
+        # send calls left waiting for write credit / stream credit, then STOP_SENDING / RESET / close / timeout
+        L += self.send_side_cases(rng, big)
         # whole connections whose transport fails, judged by the oracle H3.Spec.Faults (engine flt)
         from props import faults
         L += faults.cases(big, rng)
+        return L
+
+    def send_side_cases(self, rng, big):
+        """Send-side liveness.  The peer grants NO write credit by default (`wc=0`; the endpoint's own three
+        unidirectional streams get theirs so that the setup completes) or no bidirectional stream credit (`bc=`),
+        then hands out a few bytes at a time, so that send_response / send_data / send_trailers / finish (with the
+        grease frame, `g1`) / send_request is left PENDING in the middle of a frame, at a frame boundary, or before its
+        first byte - and THEN sends STOP_SENDING, resets its own side, closes the connection or lets it time out.
+        The ending is placed behind every prefix of the exchange; a few calls follow it."""
+        L = []
+        ends_stream = ["x%d:0", "x%d:7", "x%d:268", "r%d:3"]
+        ends_conn = ["C0", "C256", "C%d" % (2**62 - 1), "T"]
+        hdrs = ["-", "782d74=76"]
+
+        def grant(sid):
+            return "gw%d:%d" % (sid, rng.choice([1, 1, 2, 3, 4, 5, 7, 15, 40]))
+
+        for role in ("server", "client"):
+            own = [3, 7, 11] if role == "server" else [2, 6, 10]
+            n = (60 if big else 24)
+            for it in range(n):
+                g = rng.choice(["g0", "g1"])
+                cfg = "%s,wc=0,seed=%d" % (g, rng.randrange(1, 1000))
+                pre = ["gw%d:100000" % i for i in own]
+                if role == "server":
+                    pre += ["conn.AL", "o2", "s2:" + SETTINGS]
+                    nreq = rng.choice([1, 1, 2])
+                    calls = []
+                    for k in range(nreq):
+                        sid = 4 * k
+                        pre += ["o%d" % sid, "s%d:%s%s" % (sid, REQ_HEADERS, hx(frame(0x0, [1, 2], rng))), "f%d" % sid,
+                                "q%d.res" % sid]
+                        t = "q%d" % sid
+                        if rng.random() < 0.3:
+                            pre.append("%s.sp" % t)
+                            calls.append("%s.rm" % t)
+                            t += "s"
+                        else:
+                            pre.append("%s.rm" % t)
+                        prog = ["%s.sr:200:%s" % (t, rng.choice(hdrs))]
+                        for _ in range(rng.randrange(0, 3)):
+                            prog.append("%s.sd:%s" % (t, self.garbage(rng, rng.choice([0, 1, 2, 9, 40]))))
+                        if rng.random() < 0.5:
+                            prog.append("%s.st:%s" % (t, rng.choice(hdrs)))
+                        prog.append("%s.fi" % t)
+                        calls += prog
+                    sids = [4 * k for k in range(nreq)]
+                else:
+                    pre += ["drv.W", "o3", "s3:" + SETTINGS]
+                    calls = ["snd.R:%s:%s:%s" % (rng.choice(["GET", "POST"]), GET_URI, rng.choice(hdrs))]
+                    for _ in range(rng.randrange(0, 3)):
+                        calls.append("q0.sd:%s" % self.garbage(rng, rng.choice([0, 1, 2, 9, 40])))
+                    if rng.random() < 0.4:
+                        calls.append("q0.st:%s" % rng.choice(hdrs))
+                    calls.append("q0.fi")
+                    if rng.random() < 0.4:
+                        calls.insert(rng.randrange(1, len(calls) + 1), "q0.rr")
+                    sids = [0]
+                # credit trickles in between the calls; it runs dry somewhere
+                prog, dry = [], rng.randrange(0, len(calls) + 1)
+                for i, c in enumerate(calls):
+                    prog.append(c)
+                    if i < dry:
+                        m = re.match(r"^q(\d+)", c)
+                        prog.append("gw%d:100000" % (int(m.group(1)) if m else 0))
+                    elif rng.random() < 0.6:
+                        m = re.match(r"^q(\d+)", c)
+                        prog.append(grant(int(m.group(1)) if m else 0))
+                tail = ["q%d.fi" % sids[0], "q%d.sd:aa" % sids[0]] if rng.random() < 0.5 else []
+                L.append("adv %s %s %s" % (role, cfg, " ".join(pre + prog)))
+                positions = range(len(prog) + 1) if (big or it < 8) else sorted({rng.randrange(0, len(prog) + 1) for _ in range(4)})
+                for i in positions:
+                    ends = [rng.choice(ends_conn), rng.choice(ends_stream) % rng.choice(sids), "x%d:9" % sids[0]]
+                    for e in ends:
+                        L.append("adv %s %s %s" % (role, cfg, " ".join(pre + prog[:i] + [e] + prog[i:] + tail)))
+                    # both: first the stream, then the connection
+                    L.append("adv %s %s %s" % (role, cfg, " ".join(
+                        pre + prog[:i] + ["x%d:5" % sids[0]] + prog[i:i + 1] + [rng.choice(ends_conn)] + prog[i + 1:])))
+        # client: send_request waits for STREAM credit (`bc=`), then close / timeout / late credit without write credit
+        for it in range(40 if big else 16):
+            bc = rng.choice([0, 0, 1, 2])
+            wc = rng.choice(["", "", ",wc=0"])
+            cfg = "%s,bc=%d%s" % (rng.choice(["g0", "g1"]), bc, wc)
+            pre = (["gw2:100000", "gw6:100000", "gw10:100000"] if wc else []) + ["drv.W", "o3", "s3:" + SETTINGS]
+            reqs = []
+            for k in range(bc + rng.choice([1, 1, 2])):
+                reqs.append("snd.R:GET:%s:-" % GET_URI)
+                if wc and rng.random() < 0.7:
+                    reqs.append("gw%d:%d" % (4 * k, rng.choice([3, 15, 100000])))
+                if k < bc and rng.random() < 0.5:
+                    reqs.append("q%d.fi" % (4 * k))
+            late = rng.choice([[], [], ["gb1"], ["gb1", "x%d:3" % (4 * bc)], ["gb2", "gw%d:4" % (4 * bc)]])
+            for i in range(len(reqs) + 1):
+                for e in (rng.choice(ends_conn), rng.choice(["T", "C0"])):
+                    L.append("adv client %s %s" % (cfg, " ".join(pre + reqs[:i] + [e] + reqs[i:])))
+            for e in ends_conn[:2] + ["x%d:1" % (4 * bc)]:
+                L.append("adv client %s %s" % (cfg, " ".join(pre + reqs + late + [e, "snd.R:GET:%s:-" % GET_URI])))
         return L
 
     def fault_menu(self, role, sids, rng, n):
